@@ -24,6 +24,19 @@ def first_restart(blk):
     return None
 
 
+def failed_attempts_before(blks, bi):
+    """Number of immediately preceding consecutive blocks in which the start time of block bi's first step was already
+    attempted and flagged for restart (= how often that step has been retried in a row so far)."""
+    t = blks[bi][0]['time']
+    n = 0
+    for bj in range(bi - 1, -1, -1):
+        if any(a['time'] == t and 'post' in a and a['post']['restart'] for a in blks[bj]):
+            n += 1
+        else:
+            break
+    return n
+
+
 def accepted_chain(cur):
     """Accepted attempts in execution order. An attempt is accepted iff it is not flagged restart at post_step and
     no earlier step of its block is (steps after a restarted one are recomputed)."""
@@ -143,12 +156,7 @@ def check_restarts(cur):
         if len(set(dts)) > 1:
             cur.v('block_step_sizes_differ', block=blk[0]['block'], dts=dts)
         t_first = blk[0]['time']
-        if prev_pivot is None:
-            n_before = 0
-        elif prev_pivot[0] == 0:
-            n_before = prev_pivot[1] + 1
-        else:
-            n_before = 1
+        n_before = failed_attempts_before(blks, bi)
         run_len = n_before + 1
         if run_len > max_restarts + 1:
             cur.v('retried_too_often', time=t_first, attempts=run_len, max_restarts=max_restarts)
@@ -293,3 +301,77 @@ def check_stats(cur):
         exp = sum(a['niter_cb'] for a in acc)
         if len(got) != exp:
             cur.v('filtered_records', type='residual_post_iteration', n_got=len(got), n_expected=exp)
+
+
+# ------------------------------------------------------------------------------------------------------------
+# C09 on real adaptive runs (estimators of pySDC on real problems; nothing scripted, only observed)
+# ------------------------------------------------------------------------------------------------------------
+def check_real(cur):
+    cfg = cur.cfg
+    if cur.outcome0 is None or cur.outcome0[0] in ('horizon', 'exc'):
+        return
+    r = cfg['real']
+    rs = r.get('restarting', {})
+    max_restarts = rs.get('max_restarts', 10)
+    tol = r['tol']
+    lim = {'adaptive': dict(r.get('limiter', {}))}
+    blks = blocks_of(cur)
+    crashed = cur.outcome0 == ('convergence_error',)
+    prev_pivot = None
+    n_checked = 0
+    for bi, blk in enumerate(blks):
+        dts = [a['pre']['dt'] for a in blk]
+        if len(set(dts)) > 1:
+            cur.v('block_step_sizes_differ', block=blk[0]['block'], dts=dts)
+        n_before = failed_attempts_before(blks, bi)
+        if n_before + 1 > max_restarts + 1:
+            cur.v('retried_too_often', time=blk[0]['time'], attempts=n_before + 1, max_restarts=max_restarts)
+        budget_exhausted = n_before >= max_restarts
+        if not all('post' in a for a in blk):
+            continue
+        rr = first_restart(blk)
+        prev_pivot = (rr, n_before) if rr is not None else None
+        if rr is not None:
+            for i, a in enumerate(blk):
+                if i > rr and not a['post']['restart']:
+                    cur.v('later_step_not_restarted', block=a['block'], slot=a['slot'], first_restarted=rr)
+            if bi + 1 < len(blks):
+                nb = blks[bi + 1][0]
+                if nb['time'] != blk[rr]['time']:
+                    cur.v('next_block_wrong_time', block=blk[0]['block'], restart_at=rr, time=nb['time'], want=blk[rr]['time'])
+                if nb['pre']['u0'] != blk[rr]['post']['u0']:
+                    cur.v('next_block_wrong_value', block=blk[0]['block'], restart_at=rr)
+                if not (nb['pre']['dt'] < blk[rr]['post']['dt']):
+                    prop = cur.real_prop.get((blk[rr]['block'], blk[rr]['slot']))
+                    binds = None
+                    if prop is not None:
+                        _, binds = _clip(lim, prop[5], prop[1], True)
+                    if binds not in ('dt_min', 'slope_min'):
+                        cur.v('retry_not_smaller', block=blk[0]['block'], dt=blk[rr]['post']['dt'], next_dt=nb['pre']['dt'])
+            elif not crashed:
+                cur.v('restart_without_next_block', block=blk[0]['block'])
+        for i, a in enumerate(blk):
+            key = (a['block'], a['slot'])
+            est = cur.est.get(key)
+            accepted = rr is None or i < rr
+            if accepted and est is not None and est > tol and not budget_exhausted:
+                cur.v('accepted_above_tolerance', block=a['block'], slot=a['slot'], est=est, tol=tol)
+            prop = cur.real_prop.get(key)
+            if prop is not None:
+                beta, dt, e_tol, e_est, order, out = prop
+                want = beta * dt * (e_tol / e_est) ** (1.0 / order) if e_est > 0 else None
+                if want is not None and abs(out - want) > 4 * np.spacing(abs(want)):
+                    cur.v('dt_new_formula', block=a['block'], slot=a['slot'], got=out, want=want)
+                if e_tol != tol or dt != a['post']['dt']:
+                    cur.v('proposal_inputs', block=a['block'], slot=a['slot'], e_tol=e_tol, dt=dt, step_dt=a['post']['dt'])
+                own_restart = est is not None and est >= tol
+                clipped, _ = _clip(lim, out, dt, own_restart)
+                got = a['post']['dt_new']
+                forced_quarter = a['post']['restart'] and got is not None and abs(got - dt / 4.0) <= 4 * np.spacing(dt)
+                if not forced_quarter and (got is None or abs(got - clipped) > 4 * np.spacing(abs(clipped))):
+                    # the deadband uses the step's own restart flag, which only the estimator sets; both readings admitted
+                    alt, _ = _clip(lim, out, dt, not own_restart)
+                    if got is None or abs(got - alt) > 4 * np.spacing(abs(alt)):
+                        cur.v('dt_new_clipping', block=a['block'], slot=a['slot'], got=got, want=clipped, proposal=out)
+                n_checked += 1
+    cur.extra = {'proposals_checked': n_checked}
